@@ -396,6 +396,20 @@ theorem mem_modTargets_js (o : Opts) (mt : MediaType) (deps : List BDep) (td sm 
   · left; rw [hc]; simp
   · right; rw [hc]; simp
 
+/-- **configured imports are type imports**: a graph that does not include types is built as if
+none were configured (repair of F15 — before it such a build loaded their targets and kept them,
+while pruning the types of a full graph drops them) … -/
+theorem code_only_ignores_configured_imports (w : World) (o : Opts) (roots : List Spec)
+    (imports : List (Spec × List Dep)) (fuel : Nat) (hk : o.kind.includeTypes = false) :
+    buildGraph w o roots imports fuel = build w o roots [] fuel := by
+  simp [buildGraph, effImports, hk]
+
+/-- … and with types the closure theorem is about the configured imports as given -/
+theorem reachable_present_graph (w : World) (o : Opts) (roots : List Spec) (imports : List (Spec × List Dep))
+    (fuel : Nat) (out : St) (h : buildGraph w o roots imports fuel = some out) (x : Spec)
+    (hx : Reach o out roots (effImports o imports) x) : Present out x :=
+  reachable_present w o roots (effImports o imports) fuel out h x hx
+
 example : ∃ out, build demoWorld demoOpts [0] [] 50 = some out ∧
     Reach demoOpts out [0] [] 2 ∧ Present out 2 := by
   refine ⟨(build demoWorld demoOpts [0] [] 50).get (by decide), by simp, ?_, ?_⟩
